@@ -40,3 +40,23 @@ Definition base_selected : world :=
   run_sha Base base_confirmed
     [ (mkenv 2 20 0 [], 100%nat, [], CFilter);
       (mkenv 2 21 0 [], 100%nat, [seedA], CSelect) ].
+
+(** a gt2 sale: 3 winners, holders 2 and 3 with one guarantee each, participant 4 without; base
+    selection done; the distribution interrupted after one iteration and completed by somebody else *)
+Definition gt2_0 : world :=
+  match deploy Gt2 (mkenv 1 0 0 []) 1 100 0 1000 3 10 20 30 x0 with
+  | Ok s => world0 s
+  | Err _ => world0 state0
+  end.
+Definition gt2_selected : world :=
+  run_sha Gt2 gt2_0
+    [ (mkenv 1 1 0 [], 100%nat, [], CAddTicketsV2 [(2, 3, [(1, 2)]); (3, 3, [(1, 1)]); (4, 4, [])]);
+      (mkenv 1 2 0 [(1, 0, 300)], 100%nat, [], CDeposit);
+      (mkenv 2 10 0 [(0, 0, 3000)], 100%nat, [], CConfirm 3);
+      (mkenv 3 11 0 [(0, 0, 2000)], 100%nat, [], CConfirm 2);
+      (mkenv 4 11 0 [(0, 0, 4000)], 100%nat, [], CConfirm 4);
+      (mkenv 1 20 0 [], 100%nat, [], CFilter);
+      (mkenv 1 21 0 [], 100%nat, [seedA], CSelect) ].
+Definition gt2_half := step_sha Gt2 gt2_selected (mkenv 3 22 0 [], 1%nat, [seedA], CExtra).
+Definition gt2_done := step_sha Gt2 gt2_half (mkenv 4 23 0 [], 100%nat, [], CExtra).
+
